@@ -30,6 +30,14 @@ INEXACT_REDUCE = {"sum", "prod", "mean", "var", "std", "nansum", "nanmean"}
 CUM = ["cumsum", "cumprod", "nancumsum"]
 PAD_MODES = ["constant", "edge", "reflect", "symmetric", "wrap", "linear_ramp", "maximum", "mean", "minimum"]
 BOUNDARIES = ["none", "periodic", "nearest", "reflect", 0, 3]
+# Operations generated on inputs that have a zero-length axis.  Calibration: the other operations raise inside dask on
+# zero-length input (reshape_rechunk `reduce() of empty iterable`/IndexError under reshape, ravel, roll(axis=None), unique,
+# argwhere, flatnonzero, boolean-mask indexing; pad ZeroDivisionError; repeat "Need array(s) to concatenate"; triu
+# ZeroDivisionError in arange; setitem "shape mismatch").  An expression that cannot be built has no computed result, so
+# C25 does not speak about it; those operations are C20-C27's own domain.
+ZERO_LENGTH_OK = {"unary", "scalar", "binary", "astype", "clip", "getitem", "transpose", "flip", "rot90", "squeeze", "expand_dims",
+                  "concatenate", "stack", "block", "broadcast_to", "rechunk", "searchsorted", "digitize", "isin", "diff", "take",
+                  "tile", "compute_chunk_sizes"}
 # operations usable when chunk sizes are unknown
 AFTER_UNKNOWN = ["unary", "scalar", "astype", "clip", "reduce_all", "compute_chunk_sizes", "compute_chunk_sizes"]
 ALL_OPS = ["unary", "scalar", "binary", "binary", "astype", "clip",
@@ -78,6 +86,12 @@ def _rand_slice(rng, n):
 
 def gen_index(rng, shape, fancy=True, newaxis=True, ints=True):
     items, used_fancy = [], False
+    # Calibration: an integer next to a fancy index makes NumPy treat both as advanced indices (result axes are
+    # reordered); dask documents that it does not follow that rule -> C20's business, not generated here.
+    if fancy and rng.random() < 0.5:
+        ints = False
+    else:
+        fancy = False
     k = len(shape) if rng.random() < 0.75 else rng.randint(0, len(shape))
     for n in shape[:k]:
         r = rng.random()
@@ -107,9 +121,7 @@ def gen_index(rng, shape, fancy=True, newaxis=True, ints=True):
     if k < len(shape) and rng.random() < 0.5:
         items.append(["e"])
     if newaxis and not used_fancy and rng.random() < 0.15:
-        pos = rng.randint(0, len(items))
-        if not any(it[0] == "e" for it in items[:pos]) or True:
-            items.insert(pos, ["n"])
+        items.insert(rng.randint(0, len(items)), ["n"])
     return items
 
 
@@ -147,6 +159,8 @@ def gen_step(rng, v, unknown=False):
     shape, nd = v.shape, v.ndim
     op = rng.choice(AFTER_UNKNOWN if unknown else ALL_OPS)
     has0 = 0 in shape
+    if has0 and op not in ZERO_LENGTH_OK:
+        return None
     if op == "unary":
         return {"op": op, "fn": rng.choice(UNARY)}
     if op == "scalar":
@@ -287,10 +301,16 @@ def gen_step(rng, v, unknown=False):
         if nd == 0:
             return None
         mode = rng.choice(PAD_MODES)
+        # Calibration: for reflect/symmetric/wrap dask supports pad widths up to the axis length only (wider pads give a
+        # self-consistent but shorter array than NumPy: C24's business); linear_ramp/mean are compared on finite data only.
+        lim = {"reflect": min(shape) - 1, "symmetric": min(shape), "wrap": min(shape)}.get(mode, 3)
+        lim = max(0, min(3, lim))
+        if mode in ("linear_ramp", "mean") and v.dtype.kind in "fc" and not np.isfinite(v).all():
+            return None
         if rng.random() < 0.4:
-            pw = rng.randint(0, 3)
+            pw = rng.randint(0, lim)
         else:
-            pw = [[rng.randint(0, 3), rng.randint(0, 3)] for _ in range(nd)]
+            pw = [[rng.randint(0, lim), rng.randint(0, lim)] for _ in range(nd)]
         d = {"op": op, "mode": mode, "pad_width": pw}
         if mode == "constant" and rng.random() < 0.5:
             d["constant_values"] = rng.randint(-2, 2)
@@ -300,7 +320,7 @@ def gen_step(rng, v, unknown=False):
             d["end_values"] = rng.randint(-2, 2)
         return d
     if op == "diff":
-        if nd == 0:
+        if nd == 0 or v.dtype.kind == "b":   # Calibration: da.diff on bool raises TypeError (Array - Array): C24's business
             return None
         d = {"op": op, "n": rng.choice((1, 1, 2, 3)), "axis": rng.randrange(-nd, nd)}
         r = rng.random()
@@ -380,6 +400,8 @@ def gen_step(rng, v, unknown=False):
             axes[str(0)] = 1
         return {"op": op, "fn": rng.choice(("sum", "max")), "axes": axes}
     if op in ("argwhere", "flatnonzero"):
+        if nd == 0:   # Calibration: da.argwhere of a 0-d array cannot be computed (unknown chunk error): C27's business
+            return None
         return {"op": op}
     if op == "compute_chunk_sizes":
         return {"op": op}
@@ -536,7 +558,15 @@ def apply_step(step, X, lib):
         return mod.block([[s] for s in seq])
     if op == "broadcast_to":
         if lib == "da" and step.get("chunks"):
-            return mod.broadcast_to(X, tuple(step["shape"]), chunks=tuple(max(1, (s + 1) // 2) for s in step["shape"]))
+            shp, off = step["shape"], len(step["shape"]) - X.ndim
+            ch = []
+            for a, s in enumerate(shp):   # only new / broadcast dimensions may get new chunks
+                if a >= off and X.shape[a - off] == s:
+                    ch.append(X.chunks[a - off])
+                else:
+                    h = max(1, (s + 1) // 2)
+                    ch.append((h, s - h) if s - h > 0 else (s,))
+            return mod.broadcast_to(X, tuple(shp), chunks=tuple(ch))
         return mod.broadcast_to(X, tuple(step["shape"]))
     if op == "pad":
         pw = step["pad_width"]
